@@ -271,7 +271,15 @@ func ruleLock(r *Run) {
 		r.Check("lock", fmt.Sprintf("%s:%s:%s", shortName(a.fn), a.field.Name(), kind), a.in.Pos(), ok,
 			fmt.Sprintf("%s of TemplateEngine.%s in %s must happen under te.%s (%s lock): %s", kind, a.field.Name(), shortName(a.fn), mutexField.Name(), map[bool]string{true: "write", false: "read or write"}[a.write], why))
 	}
-	r.Min("guarded_field_accesses", len(accesses), 7)
+	// vacuity guard by kinds of access, not by number of sites (merging LoadTemplate and
+	// LoadTemplateFromDocument into one registering helper legitimately removes sites):
+	// cache read, cache write, basePath write must all be seen
+	kindsSeen := map[string]bool{}
+	for _, a := range accesses {
+		kindsSeen[fmt.Sprintf("%s:%v", a.field.Name(), a.write)] = true
+	}
+	r.Min("guarded_field_access_kinds", len(kindsSeen), 3)
+	r.Count("guarded_field_accesses", len(accesses))
 	// every Lock/RLock is paired with a deferred unlock (or an unlock on all paths)
 	for fn, ls := range rlockCalls {
 		for _, l := range ls {
